@@ -196,7 +196,7 @@ def write_replay(pid, ob):
 
 def finish(pid, tier, obligations, t0, level="model_checking",
            functions_encoded=None, bounds=None, stubs=None, assumptions=None,
-           outside=None, ground_facts=None, extra=None, machinery_error=None):
+           outside=None, ground_facts=None, extra=None, machinery_error=None, rule=None):
     """Write evidence, print the interface lines, return the exit code."""
     nviol = 0
     lines = []
@@ -235,7 +235,7 @@ def finish(pid, tier, obligations, t0, level="model_checking",
     cov = {
         "evaluations": max(n, 1),
         "distinct_nontrivial": nontriv,
-        "rule": ("one evaluation = one solver obligation over symbolic inputs of the real "
+        "rule": rule or ("one evaluation = one solver obligation over symbolic inputs of the real "
                  "code; non-trivial = a solver (or CBMC) actually ran and returned a verdict; "
                  "distinct by obligation name (function x claim x configuration)"),
         "samples": samples,
